@@ -5,6 +5,7 @@ package main
 import (
 	"flag"
 	"fmt"
+	"go/token"
 	"math/rand"
 	"os"
 	"path/filepath"
@@ -457,7 +458,7 @@ func main() {
 		if d.Under.K == ty.Struct {
 			flags += "m"
 			for _, f := range d.Under.Fields {
-				if strings.ToLower(f.Name[0:1]) == f.Name[0:1] {
+				if !token.IsExported(f.Name) {
 					flags += "1"
 				} else {
 					flags += "0"
